@@ -13,12 +13,17 @@ EXPLANATION = (
     "lists, /verif/spec) is in the table or ends in a digit, that tables are strictly sorted, that the reserved-word "
     "lists are closed (no 'x_' / 'x_N' forms). Correspondence (K): sanitize on adversarial labels and random "
     "call/reserve/namespace/reset sequences run on the real namers through the hooks vs the models, name for name. "
-    "A missing keyword yields a replay program using it as an identifier, compiled by the real backend.")
+    "A missing keyword yields a replay program using it as an identifier, compiled by the real backend. Generated names (S): "
+    "for generated programs every identifier the back end introduces into the text is given to a user local, parameter, helper, "
+    "struct, field, constant or private global in turn; the renamed program's text is executed by the target-language interpreter "
+    "against the WGSL reference (found: a user `_group_0_binding_1_cs` hid the GLSL storage buffer; repaired).")
 ASSUMPTIONS = [
     "Lean 4 kernel; axioms propext, Classical.choice, Quot.sound only",
     "reserved-word lists in /verif/spec are my transcription of the HLSL, MSL/C++14, GLSL 4.60 specifications",
     "the Nat coding of words (Codes.enc) is computed by the generator scripts; the lemma connecting code-level table facts to the string-level hypotheses of call_not_reserved is not yet proved (stated gap)",
-    "names emitted without going through the namer (hard-coded temporaries) are outside this check",
+    "names emitted without going through the namer (temporaries, type_N, naga_* helpers, _group_G_binding_B_stage, loop machinery) are "
+    "covered by execution only (c16clash: a user identifier renamed to every identifier the back end introduced; target-language "
+    "interpreter vs WGSL reference), not by the namer theorems",
     "Go harness + verif hooks in hlsl/msl/glsl",
 ]
 N = {"quick": 400, "thorough": 20000}
@@ -92,6 +97,11 @@ def run(ck):
                               "wgsl": un(m.group(2)) if m else None, "emitted": un(m.group(3))[:4000] if m else None,
                               "how": "TranslationInfo.EntryPointNames does not name a function definition of the emitted text "
                                      "(text read by the independent parser)"}, found_input=True)
+    # names the back ends generate without the namer (temporaries, type names, helper functions, resource names, loop
+    # machinery): a user identifier renamed to such a spelling must not change what the emitted text computes
+    from vlib import clike
+    for dialect in ("hlsl", "msl", "glsl"):
+        clike.sweep(ck, dialect, "c16clash", {"quick": 40, "thorough": 1500}.get(ck.tier, 40), glsl_ub_excluded=(dialect == "glsl"))
 
 
 def search_missing_keyword(ck, out):
